@@ -635,12 +635,12 @@ func (r *runner) judge(recs []brec, maxFail int, extra ...string) error {
 	return nil
 }
 
-func split(recs []brec) (core, gap []brec) {
+func split(recs []brec) (coreRecs, gapRecs []brec) {
 	for _, b := range recs {
 		if b.cls == "core" {
-			core = append(core, b)
+			coreRecs = append(coreRecs, b)
 		} else {
-			gap = append(gap, b)
+			gapRecs = append(gapRecs, b)
 		}
 	}
 	return
